@@ -112,3 +112,42 @@ def family_c14(prop, fail, unit_res, repo, verif, build):
 
 
 FAMILIES["C14"] = family_c14
+
+
+def core_scenarios():
+    """Deterministic grid of histories for the abstract-view oracle of replay/core (C01, C02, C03, C09, C15, C06)."""
+    S = []
+    big = " ".join(["A:t:1048576"] * 12)          # one sealed 10 MiB block (9 entries) + 3 in the tail
+    small = lambda n, sz=100: " ".join(["A:t:%d" % sz] * n)
+    budgets = [0, 1, 255, 256, 356, 1000, 2 * 1048576, 18446744073709551615]
+    for b in budgets:
+        S.append(("sealed_budget_%d" % b, "strict", "%s X:t:%d:1 X:t:%d:1 R:t X:t:%d:1" % (big, b, b, b)))
+        S.append(("tail_budget_%d" % b, "strict", "%s X:t:%d:1 R:t X:t:%d:0 X:t:%d:1" % (small(6), b, b, b)))
+        S.append(("midblock_budget_%d" % b, "strict", "%s R:t R:t X:t:%d:1 X:t:%d:1" % (big, b, b)))
+    for sizes in (["0", "0", "5"], ["127", "128", "129"], ["0"], ["5", "0", "0", "7"], ["300", "1", "127", "127", "200"]):
+        ops = " ".join("A:t:%s" % s for s in sizes)
+        S.append(("sizes_%s" % "_".join(sizes), "strict", "%s X:t:1000:1 X:t:1000:1" % ops))
+        S.append(("sizes_rn_%s" % "_".join(sizes), "strict", "%s %s R:t" % (ops, " ".join(["R:t"] * len(sizes)))))
+        S.append(("sizes_batch_%s" % "_".join(sizes), "strict", "B:t:%s P:t X:t:100000:0 X:t:100000:1 X:t:10:1" % ",".join(sizes)))
+    S.append(("peek_then_consume", "strict", "%s P:t X:t:1000:0 S:t:1000:1:300 S:t:1000:0:0 R:t X:t:5000:1" % small(8)))
+    S.append(("stateless_alo", "alo3", "%s S:t:2000:1:2780 R:t R:t" % small(10)))
+    S.append(("two_topics", "strict", "A:a:10 A:b:20 A:a:30 R:b R:a X:a:100:1 R:b R:a"))
+    S.append(("reopen_strict", "strict", "%s R:t R:t O R:t X:t:1000:1 O R:t" % small(6)))
+    S.append(("reopen_strict_sealed", "strict", "%s R:t R:t R:t O R:t X:t:3000000:1 O R:t R:t" % big))
+    for n in (3, 5):
+        S.append(("alo%d_tail_restart" % n, "alo%d" % n, "%s %s O R:t" % (small(20), " ".join(["R:t"] * 12))))
+        S.append(("alo%d_sealed_restart" % n, "alo%d" % n, "%s %s O R:t" % (big, " ".join(["R:t"] * 7))))
+    return S
+
+
+def family_core(prop, fail, unit_res, repo, verif, build):
+    sc = core_scenarios()
+    def args(scratch):
+        f = os.path.join(scratch, "scenarios.txt")
+        open(f, "w").write("\n".join("%s ; %s ; %s" % s for s in sc) + "\n")
+        return [f, os.path.join(scratch, "data")]
+    return _core_replay("walrus-replay", args, repo, verif, build)
+
+
+for _p in ("C01", "C02", "C03", "C09", "C15", "C06"):
+    FAMILIES[_p] = family_core
